@@ -62,6 +62,16 @@ def from_emission(j):
         if len(X) >= 4:
             out.append({"fn": "winterp", "mode": "grid", "x": X, "y": Y, "q": q, "method": "cubic"})
             out.append({"fn": "winterp", "mode": "grid", "x": X, "y": Y, "q": q, "method": "constant"})
+        # end points that miss by very little (absolutely, or relative to a large abscissa): still "different end points"
+        if q[0] == X[0] and q[-1] == X[-1] and len(q) >= 2:
+            near = lambda r: R(Fraction(r[0], r[1]) * (1 + Fraction(1, 2 ** 18)) if r[0] else Fraction(1, 2 ** 27))
+            out.append({"fn": "winterp", "mode": "grid", "x": X, "y": Y, "q": q[:-1] + [near(q[-1])], "method": "linear"})
+            out.append({"fn": "winterp", "mode": "grid", "x": X, "y": Y, "q": [near(q[0])] + q[1:] if Fraction(*near(q[0])) < Fraction(*q[1]) else q[:-1] + [near(q[-1])],
+                        "method": "constant", "qcontainer": "list"})
+            big = Fraction(2 ** 17)                      # the same series far from the origin (time stamps)
+            XB, qb = [R(Fraction(*r) + big) for r in X], [R(Fraction(*r) + big) for r in q]
+            out.append({"fn": "winterp", "mode": "grid", "x": XB, "y": Y, "q": qb[:-1] + [R(Fraction(*qb[-1]) + Fraction(1, 2))], "method": "linear"})
+            out.append({"fn": "winterp", "mode": "grid", "x": XB, "y": Y, "q": qb, "method": "linear"})
     elif k == "trend":
         out.append({"fn": "trend", "x": X, "y": Y, "c": [R(v) for v in op["c"]], "normalized": op["normalized"]})
         out.append({"fn": "linear_trend", "x": X, "y": Y, "a": R(op["c"][1]), "normalized": op["normalized"]})
